@@ -75,7 +75,9 @@ RULE = ("synthetic valid strings (1..6 spins quick / 1..9 thorough; per world li
         "quarter of the index range in turn (all entries positive where ops live), registered with the asymmetric ones first / "
         "in the middle / last / at random; the harness judges symmetry over ALL entries: should_do_cluster_update() and "
         "cluster_update() must follow the gate (refuse iff any term is asymmetric), then diagonal/loop/cluster/free steps and "
-        "timesteps: no op on a zero matrix element, every cluster step that runs goes through the full move oracle and models.")
+        "timesteps: no op on a zero matrix element, every cluster step that runs goes through the full move oracle and models. "
+        "Kind large: valid strings of 70000+ slots (2000 ops, last slot occupied), five cluster updates in a row on the same "
+        "container (reject / accept / random / reject / accept), Rust oracle after each, equal cluster counts (oracle only).")
 
 
 def main(ck):
